@@ -55,6 +55,33 @@ Theorem C20_reverse_array : forall (A : Type) (f : A -> A) (c : list A),
 Proof. exact reverse_array_for_spec. Qed.
 Print Assumptions C20_reverse_array.
 
+(* an adaptor has no state that survives between uses: it holds the range's iterators (or the owned elements)
+   and nothing else, so the loop is a function of the range only.  Iterating the same adaptor twice, nesting loops
+   over the same container, iterating an adaptor created before the elements were changed in place (size
+   unchanged), and asking begin() != end() repeatedly all give what a fresh adaptor gives *)
+Theorem C20_same_adaptor_twice : forall (A : Type) (c : list A),
+  enumerate_twice A c = Done (combine (seq 0 (length c)) c, combine (seq 0 (length c)) c) /\
+  reverse_twice A c = Done (rev c, rev c).
+Proof. intros A c. split; [exact (enumerate_twice_spec A c) | exact (reverse_twice_spec A c)]. Qed.
+Print Assumptions C20_same_adaptor_twice.
+
+Theorem C20_nested_loops : forall (A : Type) (c : list A),
+  enumerate_nested A c = Done (map (fun p => (p, Done (combine (seq 0 (length c)) c))) (combine (seq 0 (length c)) c)) /\
+  enumerate_reverse_nested A c = Done (map (fun p => (p, Done (rev c))) (combine (seq 0 (length c)) c)).
+Proof. intros A c. split; [exact (enumerate_nested_spec A c) | exact (enumerate_reverse_nested_spec A c)]. Qed.
+Print Assumptions C20_nested_loops.
+
+Theorem C20_adaptor_created_before_modification : forall (A : Type) (g : A -> A) (c : list A),
+  enumerate_after_modify A g c = Done (combine (seq 0 (length (map g c))) (map g c), map g c) /\
+  reverse_after_modify A g c = Done (rev (map g c), map g c).
+Proof. intros A g c. split; [exact (enumerate_after_modify_spec A g c) | exact (reverse_after_modify_spec A g c)]. Qed.
+Print Assumptions C20_adaptor_created_before_modification.
+
+Theorem C20_begin_end_repeatable : forall (A : Type) (c : list A),
+  enumerate_nonempty_test A c = negb (length c =? 0) /\ reverse_nonempty_test A c = negb (length c =? 0).
+Proof. exact nonempty_tests_spec. Qed.
+Print Assumptions C20_begin_end_repeatable.
+
 (* non-vacuity *)
 Module Examples.
 Example C20_ex_enumerate : enumerate_for nat (fun i v => 3 * v + i + 1) [5; 6; 7] = Done ([(0, 5); (1, 6); (2, 7)], [16; 20; 24]).
@@ -70,5 +97,9 @@ Example C20_ex_fuel_tight : e_loop nat 3 (fun _ v => v) [5; 6; 7] (e_begin) (e_e
 Proof. reflexivity. Qed.
 (* an end iterator at a wrong position is a dereference past the end (what a wrong end() would be) *)
 Example C20_ex_bad_end : e_loop nat 9 (fun _ v => v) [5] e_begin {| e_pos := 3; e_idx := 0 |} [] = BadDeref.
+Proof. reflexivity. Qed.
+Example C20_ex_twice : enumerate_twice nat [5; 6] = Done ([(0, 5); (1, 6)], [(0, 5); (1, 6)]).
+Proof. reflexivity. Qed.
+Example C20_ex_nested : enumerate_reverse_nested nat [5; 6] = Done [((0, 5), Done [6; 5]); ((1, 6), Done [6; 5])].
 Proof. reflexivity. Qed.
 End Examples.
